@@ -54,7 +54,7 @@ class SymEnv:
         self.notes = []
 
     # ---- inputs
-    def real(self, name, lo=None, hi=None, lo_open=False, hi_open=False, sample=None, ne=None):
+    def real(self, name, lo=None, hi=None, lo_open=False, hi_open=False, sample=None, ne=None, srange=None):
         v = z3.Real(name)
         self.inputs[name] = v
         c = sym.ctx()
@@ -130,7 +130,7 @@ class ConcEnv:
         self.results = []    # (name, ok, a, b)
         self.notes = []
 
-    def real(self, name, lo=None, hi=None, lo_open=False, hi_open=False, sample=None, ne=None):
+    def real(self, name, lo=None, hi=None, lo_open=False, hi_open=False, sample=None, ne=None, srange=None):
         if name in self.values:
             v = float(self.values[name])
         elif sample is not None:
@@ -140,6 +140,8 @@ class ConcEnv:
             h = l + 3.0 if hi is None else float(hi)
             if lo is None and hi is not None:
                 l = h - 3.0
+            if srange is not None:      # range used for concrete validation samples only
+                l, h = float(srange[0]), float(srange[1])
             r = self.rng.random() if self.rng is not None else 0.37
             v = l + (h - l) * (0.1 + 0.8 * r)
         ok = True
